@@ -201,7 +201,14 @@ def mode_structs():
         pf = cls._fields_
         if len(pf) != len(ex['members']):
             r['bad'].append({'field': '*', 'why': 'Python declares %d fields, the C structure has %d members (%s)' % (len(pf), len(ex['members']), ', '.join(m['name'] for m in ex['members']))})
+        cnames = [m['name'] for m in ex['members']]
         for k, f in enumerate(pf):
+            # a Python field that carries the name of a C member must sit at that member's position: two adjacent members of
+            # the same type can be swapped without any byte of the layout changing, only the name -> offset map differs
+            if f[0] in cnames and cnames.index(f[0]) != k:
+                r['bad'].append({'field': f[0], 'index': k, 'cmember': f[0], 'ctype': ex['members'][cnames.index(f[0])]['ctype'],
+                                 'why': 'Python declares field %s at position %d (offset %d), the C member %s is at position %d (offset %d)' % (
+                                     f[0], k, getattr(cls, f[0]).offset, f[0], cnames.index(f[0]), ex['members'][cnames.index(f[0])]['offset'])})
             if k >= len(ex['members']):
                 break
             cm = ex['members'][k]
